@@ -144,6 +144,109 @@ def squeeze_guard(ctx, g):
                    " / ".join(missing), sorted(ex)), b.span_of(bi))
 
 
+def rooted_word(t, depth=0):
+    """(root term, [operation indices applied left to right]) for root.op(i1).op(i2)...; (t, []) when t is not such a lookup"""
+    t = strip(t)
+    if depth > 12 or not isinstance(t, tuple):
+        return t, []
+    if t[0] == "agg" and t[1].endswith("Option::Some") and len(t[2]) == 1:
+        return rooted_word(t[2][0], depth + 1)
+    if is_call(t, "Option::<T>::unwrap") or is_call(t, "Option::<T>::expect"):
+        return rooted_word(t[2][0], depth + 1)
+    if t[0] == "call" and (t[1].endswith("DSet::op") or t[1].endswith("::op_unchecked")) and len(t[2]) == 3:
+        i = eval_int(t[2][1])
+        if i is not None:
+            r, w = rooted_word(t[2][2], depth + 1)
+            return r, w + [i]
+    return t, []
+
+
+def canon_word(w):
+    """normal form under d.i.i = d and d.i.j = d.j.i for |i - j| > 1 (both hold in every D-set this module handles)"""
+    w = list(w)
+    changed = True
+    while changed:
+        changed = False
+        k = 0
+        while k + 1 < len(w):
+            if w[k] == w[k + 1]:
+                del w[k:k + 2]
+                changed = True
+                k = max(k - 1, 0)
+            elif abs(w[k] - w[k + 1]) > 1 and w[k] > w[k + 1]:
+                w[k], w[k + 1] = w[k + 1], w[k]
+                changed = True
+                k = max(k - 1, 0)
+            else:
+                k += 1
+    return tuple(w)
+
+
+def reglue_pairs(ctx, g):
+    """reglue(ds, pairs, k) overwrites op(k, .) on the listed chambers only. The result is a D-set (op k an involution) only if the listed chambers
+    are closed under the OLD op(k, .) - otherwise a chamber keeps pointing at a partner that no longer points back - and each is listed once.
+    For the literal pair lists: (a) pairs of existing chambers (squeeze_tile_3d, fix_local_1_vertex, fix_non_disk_face): every component x has its
+    old partner x.k in the list; (b) pairs of freshly grown chambers nu[c] (cut_face; fixed points of every operation): each c once, and all of them"""
+    ctx.clauses.append("literal pair lists passed to reglue are perfect matchings of a set of chambers closed under the old operation (T9)")
+    n_sites = n_lit = 0
+    for fn in ("squeeze_tile_3d", "fix_local_1_vertex", "fix_non_disk_face", "cut_face", "cut_tile"):
+        b = ctx.body(M + fn)
+        ctx.scan([b])
+        for bi, t in b.calls(exact=M + "reglue"):
+            n_sites += 1
+            pairs = strip(norm(b.origin(t["args"][1]), g))
+            k = eval_int(norm(b.origin(t["args"][2]), g))
+            if not (pairs[0] == "agg" and pairs[1] == "array"):
+                continue          # iterator-built lists (cut_face index 1, cut_tile): not decided here
+            n_lit += 1
+            comps = []
+            okshape = k is not None
+            for p in pairs[2]:
+                p = strip(p)
+                if p[0] == "agg" and p[1] == "tuple" and len(p[2]) == 2:
+                    comps += [strip(p[2][0]), strip(p[2][1])]
+                else:
+                    okshape = False
+            if not okshape:
+                ctx.ob("T9-reglue-pairs", b.name, "reglue #%d" % n_lit, "violation", "pair list / index not a literal: %s" % show(pairs, 1)[:60], b.span_of(bi))
+                continue
+            fresh = [c for c in comps if is_call(c, "Index::index") or c[0] == "index"]
+            if fresh and len(fresh) == len(comps):
+                idx = [eval_int(c[2][1] if c[0] == "call" else c[2]) for c in comps]
+                srcs = {c[2][0] if c[0] == "call" else c[1] for c in comps}
+                rng = None
+                for s in srcs:
+                    s = strip(s)
+                    s = strip(s[2][0]) if is_call(s, "Iterator::collect") else s
+                    r = range_of(b, s, g)
+                    if r:
+                        rng = eval_term_env(("binop", "Sub", r[1], r[0]), {}) if False else r
+                width = None
+                if rng is not None and len(srcs) == 1:
+                    lo, hi = rng[0], rng[1]
+                    size = ("field", ("param", 1, b.debug.get(1, "")), "size")
+                    a_, b_ = eval_term_env(unov_term(lo), {size: 100}), eval_term_env(unov_term(hi), {size: 100})
+                    if a_ is not None and b_ is not None:
+                        width = b_ - a_ + (1 if rng[2] else 0)
+                ok = None not in idx and len(set(idx)) == len(idx) and width is not None and sorted(idx) == list(range(width))
+                ctx.ob("T9-reglue-pairs", b.name, "op %s of the fresh chambers" % k, "ok" if ok else "violation",
+                       "each of the %d fresh chambers is paired exactly once" % width if ok else
+                       "the pairs for operation %s list fresh chambers %s (of %s grown): a chamber listed twice loses the involution, one left out stays a fixed point where the cut surface must be closed" % (k, idx, width), b.span_of(bi))
+                continue
+            rw = [(r, canon_word(w)) for r, w in (rooted_word(c) for c in comps)]
+            bad = None
+            if len(set(rw)) != len(rw):
+                bad = "a chamber is listed twice in the pairs for operation %s" % k
+            for (r, w), c in zip(rw, comps):
+                if (r, canon_word(list(w) + [k])) not in rw:
+                    bad = bad or "%s (= %s . %s) is re-paired under operation %s but its old partner under that operation is not in the list: the old partner keeps pointing at it, operation %s is no longer an involution (build_set panics or the D-set is invalid)" % (
+                        show(c, 1)[:40], show(r, 1)[:20], list(w), k, k)
+            ctx.ob("T9-reglue-pairs", b.name, "op %s of existing chambers" % k, "ok" if not bad else "violation",
+                   "the %d re-paired chambers are closed under the old operation %s and listed once" % (len(comps), k) if not bad else bad, b.span_of(bi))
+    ctx.floor("reglue call sites", n_sites, 11)
+    ctx.floor("reglue call sites with a literal pair list", n_lit, 6)
+
+
 def in_loop(body, bb):
     return any(bb in blocks for h, blocks in natural_loops(body))
 
@@ -340,5 +443,6 @@ def run(ctx):
     ctx.ob("T9-merge-carried", ma.name, "ds = out", "ok" if okm else "violation",
            "starts from a clone of the input, keeps every Some(out), returns the carried D-set" if okm else "merge_all does not thread one D-set through its steps (%s)" % why)
     squeeze_guard(ctx, g)
+    reglue_pairs(ctx, g)
     for bi, t in mi:
         every_iteration_reaches(ctx, "T3-merge-every-step", ma, bi, "step-loop->op(&ds)", "some step of merge_all's table is skipped")
